@@ -2,7 +2,7 @@
 
    new kind=ss|fs|fi|fv cap=N cmp=less|greater|tless|tgreater|hless ctor=range|cont|su|sur init=[..] other=[..]
        (kind=fv: flat_set over etl::inplace_vector — ctor=su only; operations: lookups, clear, extract, cmp, sizes)
-   insert k=K [via=insert|move|emplace]   insert k=K via=hint pos=P      insert_range ks=[..]
+   insert k=K [via=insert|move|emplace]   insert k=K via=hint pos=P      insert_range ks=[..] [su=1: insert(sorted_unique, first, last), same model]
    erase_key k=K   erase_at pos=P   erase_range first=F last=L   clear   swap   extract   replace c=[..]
    find|contains|count k=K [het=1]   lower_bound|upper_bound|equal_range k=K [het=1]   riter
    erase_if m=M r=R        (`etl::erase_if(cur, [](int v){ return v % M == R; })`: erased count)
